@@ -1,6 +1,7 @@
 package simkit
 
 import (
+	"syscall"
 	"errors"
 	"fmt"
 	"io"
@@ -274,6 +275,13 @@ func (w *SimWriter) Write(p []byte) (n int, err error) {
 			k := len(p) / 2
 			w.Buf = append(w.Buf, p[:k]...)
 			return k, ErrInjected
+		}
+		if w.Plan.CallKind == "partial+eintr" && len(p) > 1 {
+			// what a signal does to a write on a pipe: part of the buffer is taken, and the call
+			// is reported as interrupted
+			k := len(p) / 2
+			w.Buf = append(w.Buf, p[:k]...)
+			return k, syscall.EINTR
 		}
 		return 0, ErrInjected
 	}
